@@ -856,43 +856,8 @@ func specialClass(pl Plan) string {
 		}
 		return "nonfinite:" + strings.Join(parts, ",")
 	}
-	present := map[string]bool{}
-	note := func(js []gen.Jet) {
-		for _, j := range js {
-			if isSpecial(j.V) {
-				present[sign(j.V)] = true
-			}
-		}
-	}
-	note(pl.Recv.V.Vals)
-	note(pl.Recv.M.Vals)
-	letter := 'a'
-	for _, a := range pl.Args {
-		if a.Kind == "int" || a.Kind == "float" {
-			continue
-		}
-		switch a.Kind {
-		case "scalar":
-			if isSpecial(a.J.V) {
-				parts = append(parts, string(letter)+sign(a.J.V))
-			}
-		case "vector":
-			note(a.V.Vals)
-		case "matrix":
-			note(a.M.Vals)
-		}
-		letter++
-	}
-	var el []string
-	for _, k := range []string{"-Inf", "+Inf", "NaN", "-0"} {
-		if present[k] {
-			el = append(el, k)
-		}
-	}
-	if len(el) > 0 {
-		parts = append(parts, "elements:"+strings.Join(el, "/"))
-	}
-	return "nonfinite:" + strings.Join(parts, ",")
+	// containers: one class — which special value sits where is in the witness
+	return "nonfinite"
 }
 
 // scalarParams: indices (into Args) of the scalar operands.
